@@ -1,9 +1,11 @@
 (* C08 — lemmas. *)
 From Coq Require Import ZArith List Bool Lia Permutation Sorted Field.
 From IBL.lib Require Import PyInt.
-From IBL.C08 Require Import Model.
+From IBL.C08 Require Import Model Adc.
 Import ListNotations.
 Open Scope Z_scope.
+Arguments zrange : simpl never.
+Arguments firstn : simpl never.
 
 (* ================================================================== *)
 (* generic list facts                                                  *)
@@ -224,42 +226,6 @@ Lemma columns_gmap f t : columns (gmap f t) = map f (columns t).
 Proof. reflexivity. Qed.
 
 (* ================================================================== *)
-(* ADC tables: exhaustive evaluation of the loop for NC = 384          *)
-(* ================================================================== *)
-Lemma adc_loop_closed : forall g,
-  adc_shifts g NC = Some (map (shift_closed g) (zrange NC), map (adc_of g) (zrange NC)).
-Proof. intros []; vm_compute; reflexivity. Qed.
-
-Lemma shifts_loop_closed : forall g, shifts_loop g = Some (map (shift_closed g) (zrange NC)).
-Proof. intros []; vm_compute; reflexivity. Qed.
-
-Lemma adc_shifts_prefix g n :
-  adc_shifts g n = Some (firstn n (map (shift_closed g) (zrange NC)), firstn n (map (adc_of g) (zrange NC))).
-Proof. unfold adc_shifts. rewrite shifts_loop_closed. reflexivity. Qed.
-
-(* every ADC serves exactly adc_channels channels, at delays 0..A-1 (numerators), in channel order *)
-Definition served (g : gen) (a : Z) : list Z := filter (fun c => adc_of g c =? a) (zrange NC).
-Definition adc_ok (g : gen) (a : Z) : bool :=
-  if list_eq_dec Z.eq_dec (map (shift_closed g) (served g a)) (zrange (Z.to_nat (adc_channels g)))
-  then true else false.
-
-Lemma adc_ok_all : forall g, forallb (adc_ok g) (adc_all g) = true.
-Proof. intros []; vm_compute; reflexivity. Qed.
-
-Lemma adc_ok_true g a : adc_ok g a = true ->
-  map (shift_closed g) (served g a) = zrange (Z.to_nat (adc_channels g)).
-Proof.
-  unfold adc_ok. destruct (list_eq_dec Z.eq_dec _ _) as [E|]; [intros _; exact E|discriminate].
-Qed.
-
-Lemma adc_each_served : forall g a, In a (adc_all g) ->
-  map (shift_closed g) (served g a) = zrange (Z.to_nat (adc_channels g)).
-Proof.
-  intros g a Ha. apply adc_ok_true.
-  pose proof (adc_ok_all g) as H. rewrite forallb_forall in H. exact (H a Ha).
-Qed.
-
-(* ================================================================== *)
 (* shape of geometry_unsorted                                          *)
 (* ================================================================== *)
 Lemma map_opt_length {A B} (f : A -> option B) l r : map_opt f l = Some r -> length r = length l.
@@ -337,7 +303,8 @@ Lemma raw_geom_rect g sites q : length q = length sites -> (length sites <= NC)%
   rect (with_ind (raw_geom g sites q)) (length sites).
 Proof.
   intros Hq Hl. unfold rect, columns, with_ind, raw_geom, gsize; cbn.
-  repeat constructor; rewrite ?map_length, ?zrange_length, ?firstn_tables_length; auto.
+  repeat constructor;
+    repeat (rewrite ?map_length, ?zrange_length, ?firstn_tables_length by assumption); auto.
 Qed.
 
 Lemma geometry_unsorted_rect g e sites split t : geometry_unsorted g e sites split = Some t ->
@@ -398,6 +365,13 @@ Proof.
   - inversion He. lia.
 Qed.
 
+Lemma znth_firstn_table (f : Z -> Z) n i : (i < n)%nat -> (n <= NC)%nat ->
+  znth (firstn n (map f (zrange NC))) (Z.of_nat i) = f (Z.of_nat i).
+Proof.
+  intros Hi Hn. unfold znth at 1. rewrite Nat2Z.id, nth_firstn_lt by exact Hi.
+  rewrite <- (Nat2Z.id i) at 1. apply (znth_map_zrange f NC (Z.of_nat i)). lia.
+Qed.
+
 (* ================================================================== *)
 (* the unsorted, unsplit geometry lists site i at position i           *)
 (* ================================================================== *)
@@ -420,26 +394,16 @@ Proof.
   assert (Hs : gsize (with_ind (raw_geom g sites q)) = length sites).
   { unfold gsize, with_ind, raw_geom; cbn. now rewrite map_length. }
   split; [exact Hs|]. split; [now apply raw_geom_rect|].
-  intros i Hi z. unfold with_ind. rewrite Hs. unfold raw_geom; cbn.
+  intros i Hi. unfold with_ind, gsize, raw_geom; cbn [g_shank g_flag g_col g_row g_x g_y g_adc g_shift g_ind].
   repeat split.
   - now apply znth_map_nth.
   - now apply znth_map_nth.
   - rewrite (map_opt_nth _ _ _ dsite (0, 0, 0, 0) Eq i Hi).
-    unfold z. rewrite !(znth_map_nth _ q (0, 0, 0, 0)) by lia.
+    rewrite !(znth_map_nth _ q (0, 0, 0, 0)) by lia.
     now destruct (nth i q (0, 0, 0, 0)) as [[[a b] c] d].
-  - unfold znth, z. rewrite Nat2Z.id, nth_firstn_lt by lia.
-    change (nth i (map (adc_of g) (zrange NC)) 0) with (znth (map (adc_of g) (zrange NC)) (Z.of_nat i)) at 1.
-    unfold znth at 1. rewrite Nat2Z.id.
-    change (nth i (map (adc_of g) (zrange NC)) 0) with (nth (Z.to_nat (Z.of_nat i)) (map (adc_of g) (zrange NC)) 0).
-    fold (znth (map (adc_of g) (zrange NC)) (Z.of_nat i)).
-    apply znth_map_zrange. unfold NC in *. lia.
-  - unfold znth, z. rewrite Nat2Z.id, nth_firstn_lt by lia.
-    change (nth i (map (shift_closed g) (zrange NC)) 0)
-      with (nth (Z.to_nat (Z.of_nat i)) (map (shift_closed g) (zrange NC)) 0).
-    rewrite <- (Nat2Z.id i) at 1.
-    fold (znth (map (shift_closed g) (zrange NC)) (Z.of_nat i)).
-    apply znth_map_zrange. unfold NC in *. lia.
-  - apply znth_zrange. lia.
+  - now apply znth_firstn_table.
+  - now apply znth_firstn_table.
+  - apply znth_zrange. rewrite map_length. lia.
 Qed.
 
 (* ================================================================== *)
@@ -481,14 +445,13 @@ Section FieldInverse.
   Variables (F : Type) (f0 f1 : F) (fadd fmul fsub : F -> F -> F) (fopp : F -> F)
             (fdiv : F -> F -> F) (finv : F -> F).
   Hypothesis Fth : field_theory f0 f1 fadd fmul fsub fopp fdiv finv (@eq F).
-  Set Default Proof Using "Fth".
   Add Field Ffield : Fth.
   Definition rc2xy_F (d o v : F) : F := fadd (fmul v d) o.        (* col * DX + X0 *)
   Definition xy2rc_F (d o v : F) : F := fdiv (fsub v o) d.        (* (x - X0) / DX *)
   Lemma field_xy_of_rc d o v : d <> f0 -> xy2rc_F d o (rc2xy_F d o v) = v.
-  Proof. intros Hd. unfold xy2rc_F, rc2xy_F. field. exact Hd. Qed.
+  Proof using Fth. intros Hd. unfold xy2rc_F, rc2xy_F. field. exact Hd. Qed.
   Lemma field_rc_of_xy d o v : d <> f0 -> rc2xy_F d o (xy2rc_F d o v) = v.
-  Proof. intros Hd. unfold xy2rc_F, rc2xy_F. field. exact Hd. Qed.
+  Proof using Fth. intros Hd. unfold xy2rc_F, rc2xy_F. field. exact Hd. Qed.
 End FieldInverse.
 
 (* ================================================================== *)
